@@ -22,12 +22,13 @@ var GroupNames = [5]string{"bypass", "pre", "cont", "post", "deferred"}
 
 // Family of group subsets.
 const (
-	GroupsNone   = 0 // no check groups
-	GroupsFamily = 1 // none, each single group, all five (7 subsets)
-	GroupsAll    = 2 // all 32 subsets
-	GroupsNoneOrAll = 3 // none or all five
+	GroupsNone         = 0 // no check groups
+	GroupsFamily       = 1 // none, each single group, all five (7 subsets)
+	GroupsAll          = 2 // all 32 subsets
+	GroupsNoneOrAll    = 3 // none or all five
 	GroupsContDeferred = 4 // continuous checks, with or without deferred checks
-	GroupsDeferred = 5 // deferred checks only
+	GroupsDeferred     = 5 // deferred checks only
+	GroupsCont         = 6 // continuous checks only
 )
 
 type Cfg struct {
@@ -71,6 +72,8 @@ func mask(name string, family int) int {
 		return 31 * api.Choose(name, 2)
 	case GroupsDeferred:
 		return 1 << GDeferred
+	case GroupsCont:
+		return 1 << GCont
 	case GroupsContDeferred:
 		return 1<<GCont | api.Choose(name, 2)<<GDeferred
 	}
